@@ -494,7 +494,10 @@ func famTyped(dir string, seed int64, tier string) {
 			if e3 != nil || !tokensExactEq(ts, ts3) {
 				repM.violate("C08", "map-history-dependent", fmt.Sprintf("the same content built through a different insertion/deletion history marshals differently (%v): %s vs %s", e3, truncate(descTokens(ts), 300), truncate(descTokens(ts3), 300)), desc)
 			}
-			if ok, msg := mapKeysAscending(ts); !ok {
+			// (default options only: entries are ordered by the keys' streams under the DEFAULT options, so with
+			// empty-field skipping the emitted streams of struct-typed keys need not be ascending; C08 quantifies
+			// over inputs and histories, not configurations - the model mirrors this: Model/Marshal.v sortkey)
+			if ok, msg := mapKeysAscending(ts); !ok && !skipEmpty {
 				repM.violate("C08", "map-keys-not-ascending", msg, desc)
 			}
 			// levels of pointer / interface indirection
